@@ -130,7 +130,6 @@ static void fft_wiener(float *tx_block, int n, int strength) {
 // one argument tuple: input already in `in`; compares all variants.  A difference that is ONLY the sign of zero (+0.0 vs -0.0)
 // in some outputs is recorded as a mismatch like any other, but the first difference in a non-zero value replaces the stored
 // description (it is the more informative one).
-static int fft_value_diff_seen[KMAXV];
 static void fft_one(Run *r, const float *in, int n, const char *what) {
     const Kern  *k    = r->k;
     const size_t body = 2 * (size_t)n * n, len = 64 + body + 64, nb = sizeof(float) * len;
@@ -157,12 +156,9 @@ static void fft_one(Run *r, const float *in, int n, const char *what) {
                      what, nz, nv, firstv >= 0 ? "value difference" : "sign-of-zero difference", i,
                      i < 0 || i >= (long)body ? "GUARD AREA" : k->a ? "sample y*N+x" : "re/im interleaved: (y*N+x)*2+im", F_out_c[d], f2u(F_out_c[d]),
                      F_out_v[d], f2u(F_out_v[d]), in[0], in[1], in[2], in[3]);
-            if (nv && !fft_value_diff_seen[vi] && r->var[vi].mism) { // promote the first value difference
-                r->var[vi].first_case = r->case_idx - 1;
-                snprintf(r->var[vi].desc, sizeof r->var[vi].desc, "%s", msg);
-            }
-            if (nv) fft_value_diff_seen[vi] = 1;
-            MISMATCH(r, vi, "%s", msg);
+            // only the sign of zero differs (numerically equal outputs): reported under its own key class
+            if (nv) MISMATCH(r, vi, "%s", msg);
+            else SOFTDIFF(r, vi, "%s", msg);
             continue;
         }
         if (memcmp(F_tmp_c, F_tmp_v, 64 * 4) || memcmp(F_tmp_c + 64 + body, F_tmp_v + 64 + body, 64 * 4))
@@ -186,7 +182,6 @@ void drv_misc_fft(Run *r) {
     if (!svt_aom_flat_block_finder_init(&bf8, n, 8, 0)) return;
     if (!svt_aom_flat_block_finder_init(&bf10, n, 10, 1)) { svt_aom_flat_block_finder_free(&bf8); return; }
     fft_window(n);
-    memset(fft_value_diff_seen, 0, sizeof fft_value_diff_seen);
     const size_t nb = sizeof(float) * (64 + 2 * (size_t)n * n + 64);
     kc_junk(F_in, sizeof F_in, 13);
     static const int STRENGTH[3] = {0, 10, 50};
